@@ -21,7 +21,7 @@ class RefCloud:
         self.expired_sessions = set()         # issued once, no longer valid
         self.tokens = {}                      # udpid(str) -> list of entries [{"udpId","token","key"}] to return
         self.default_tokens = None            # callable(udpid) -> list, when udpid not in tokens
-        self.faults = []                      # consumed one per request: None | "timeout" | ("http", code) | ("api", code)
+        self.faults = []                      # consumed one per request: None | "timeout" | ("http", code[, headers]) | ("api", code)
         self.requests = []                    # log: dict(path, fields, verdict, fault)
         self.problems = []                    # verification failures (strings)
         self.clock_fn = clock_fn
@@ -73,7 +73,8 @@ class RefCloud:
             await asyncio.sleep(10.0)
             raise httpx.ReadTimeout("timed out", request=request)
         if isinstance(fault, (list, tuple)) and fault[0] == "http":
-            return httpx.Response(fault[1], text="error")
+            # optionally with response headers a throttling server or a proxy adds (Retry-After, Location ...)
+            return httpx.Response(fault[1], text="error", headers=(dict(fault[2]) if len(fault) > 2 else None))
         if isinstance(fault, (list, tuple)) and fault[0] == "exc":
             # the exchange fails below the HTTP status level (connection dropped, protocol violation, proxy ...)
             cls = getattr(httpx, fault[1])
